@@ -176,7 +176,8 @@ Definition tuple_rule (ps : list pat) (rhs : list node) : prule :=
             | Some (k, true) => Some (k, flat2 (from_list rhs))
             | _ => None end.
 
-(** UNSORTED_OPTS (optimize.rs:103-135), the 31 tuple rules in source order *)
+(** UNSORTED_OPTS, the 29 tuple rules in source order (commits 5e4b2d1 and 9f3362f removed
+    (-1, Pow) -> Reciprocal and (i, Mul, Add) -> Complex) *)
 Definition tuple_table : list (list pat * list node) := [
   ([PP 2; PP 52; PP 32; PP 9], [nPseudoIsPrime]);
   ([PP 33; PP 31], [nLast]);
@@ -201,14 +202,12 @@ Definition tuple_table : list (list pat * list node) := [
   ([PP 43; PP 32], [nLastSort]);
   ([PP 4; PP 44], [nReplaceRand]);
   ([PP 4; PP 4; PP 44], [nReplaceRand2]);
-  ([PI (-1); PP 45], [nReciprocal]);
   ([PI 2; PP 45], [nDup; nMul]);
   ([PI 3; PP 45], [nDup; nDup; nMul; nMul]);
   ([PI 4; PP 45], [nDup; nMul; nDup; nMul]);
   ([PP 46; PP 19], [nAbsComplex]);
   ([PP 19; PP 2; PP 7], [nSquareAbs]);
-  ([PP 19; PP 8], [nNegAbs]);
-  ([PCI; PP 7; PP 5], [nComplex])
+  ([PP 19; PP 8], [nNegAbs])
 ]%N%Z.
 
 (* ---- the hand-written Optimizations *)
